@@ -633,8 +633,11 @@ class AioWorld(WorldBase):
             self.setup()
             for k, opts in self.scenario.get("conns", {}).items():
                 self.open_conn(k, opts)
+            monitor = self.scenario.get("monitor")  # called at every quiescent boundary
             while True:
                 quiescent = not loop.has_work()
+                if quiescent and monitor is not None:
+                    monitor(self)
                 ev = self.driver.at_boundary(self, quiescent)
                 if ev is STOP:
                     break
